@@ -619,7 +619,13 @@ fn peel_references(
             let mut peeled = false;
             loop {
                 match &p.bounded_ty {
-                    syn::Type::Reference(r) => {
+                    // (The object lifetime of a bare `dyn Trait` would become `'static`.)
+                    syn::Type::Reference(r)
+                        if !matches!(
+                            &*r.elem,
+                            syn::Type::TraitObject(_) | syn::Type::Paren(_) | syn::Type::Group(_),
+                        ) =>
+                    {
                         p.bounded_ty = (*r.elem).clone();
                         peeled = true;
                     }
